@@ -179,4 +179,13 @@ theorem keeps_stackSlice (lo hi : Int) : Keeps (stackSlice lo hi) := by
 theorem stackSlice_spec (lo hi : Int) (c0 : CP) :
     ⦃fun s => ⌜c0 = cp s⌝⦄ stackSlice lo hi ⦃post⟨fun _ s => ⌜cp s = c0⌝, fun _ s => ⌜cp s = c0⌝⟩⦄ := (keeps_stackSlice lo hi).spec c0
 
+theorem keeps_bindArgs (code : Code) (bp numArgs flags : Int) : Keeps (bindArgs code bp numArgs flags) := by
+  have ss := stackSlice_spec
+  keeps_start
+  mvcgen [bindArgs, stackGet, stackSet, getS, modS, UgoVerif.VM.panic, ss]
+  all_goals vm_same
+@[spec] theorem bindArgs_spec (code : Code) (bp numArgs flags : Int) (c0 : CP) :
+    ⦃fun s => ⌜c0 = cp s⌝⦄ bindArgs code bp numArgs flags ⦃post⟨fun _ s => ⌜cp s = c0⌝, fun _ s => ⌜cp s = c0⌝⟩⦄ :=
+  (keeps_bindArgs code bp numArgs flags).spec c0
+
 end UgoVerif.Proofs.VM
